@@ -30,6 +30,7 @@ properties! {
     "C16" => c16,
     "C17" => c17,
     "C18" => c18,
+    "C19" => c19,
 }
 
 fn main() {
